@@ -12,13 +12,13 @@ func init() {
 		core.RunLeg(c, core.Leg[specCase]{
 			Name: "S-rtl", Kind: "correspondence(spec)",
 			Rule: "as leg S of C01 but every pattern is compiled with RightToLeft (alone and with i/m/s/n/x/RE2 drawn at random): Go FindRunesMatchStartingAt (start = len or random) vs Lean Spec.find with rtl = true (descending attempt positions, leftward consumption, last-to-first concatenation, lookahead rightwards, spans normalised); non-trivial = AST has >1 node and input non-empty; distinct by (options, pattern, input, start)",
-			N: c.N(6000, 400000), Gen: st.next, Check: specCheck("C15"), Batch: 4000,
+			N:    c.N(6000, 400000), Gen: st.next, Check: specCheck("C15"), Batch: 4000,
 		})
 		st2 := &specGenState{cfg: c01Config(true), perAst: 6, maxLen: 10}
 		core.RunLeg(c, core.Leg[specCase]{
 			Name: "T-rtl", Kind: "correspondence(spec on the engine's tree)",
 			Rule: "as leg T of C01 with RightToLeft: the engine's own tree (concatenations stored reversed by the parser, direction bits per node) converted to the specification's AST and run with rtl = true must give the engine's result; a node whose direction bit contradicts its structural direction fails the conversion",
-			N: c.N(4000, 300000), Gen: st2.next, Check: specTreeCheck("C15"), Batch: 4000,
+			N:    c.N(4000, 300000), Gen: st2.next, Check: specTreeCheck("C15"), Batch: 4000,
 		})
 	})
 }
